@@ -340,6 +340,52 @@ def family_level_jump():
                                           {"op": "release_gate", "name": "rh_hold"}, {"op": "wait_outcomes", "n": f, "ms": 4000}]
             steps += submits([(f + 1, 0)]) + [{"op": "wait_outcomes", "n": f + 1, "ms": 3000}, {"op": "close"}]
             out.append(sc("level-jump-r%d-x%d" % (rmax, extra), "gates", cfg, steps, pl, gates))
+        # the level-1 chaser is held at the OLD broker worker until the worker is already on level 2, and comes back
+        # before the level-2 chaser: afterwards the partition must be back to normal (new input flows, Close returns)
+        cfg = dict(retryMax=rmax, leaders=[1], nbrokers=3, backoffMs=10)
+        gates = [{"name": "fin0", "point": "bp.recv", "flags": "fin", "retries": 0, "part": -1, "hwm": -1},
+                 {"name": "fin1", "point": "bp.recv", "flags": "fin", "retries": 1, "part": -1, "hwm": -1}]
+        pl = {"1": {"hold": True, "part": {"0": "retry"}}, "2": {"hold": True, "part": {"0": "retry"}}}
+        steps = submits([(1, 0)]) + [{"op": "wait_req", "n": 1, "ms": 1500}, {"op": "move", "part": 0, "to": 2}, {"op": "release", "n": 1},
+                                     {"op": "wait_gate", "name": "fin0"}, {"op": "wait_req", "n": 2, "ms": 2000},
+                                     {"op": "move", "part": 0, "to": 3}, {"op": "release", "n": 2}, {"op": "wait_gate", "name": "fin1"},
+                                     {"op": "release_gate", "name": "fin0"}, {"op": "sleep", "ms": 60}, {"op": "release_gate", "name": "fin1"},
+                                     {"op": "wait_outcomes", "n": 1, "ms": 3000}]
+        steps += submits([(2, 0), (3, 0)]) + [{"op": "must_outcomes", "n": 3, "ms": 3000}, {"op": "close"}]
+        out.append(sc("late-fin-r%d" % rmax, "gates", cfg, steps, pl, gates))
+    return out
+
+
+def family_resubmit(idem):
+    """the application sends a message OBJECT it got back on Errors()/Successes() again (as a new message), while its
+    partition is idle or in a retry phase (parked, then released by flushRetryBuffers): it must be treated like any new
+    message (sequenced afresh, full retry budget, exactly one outcome, written once)"""
+    out = []
+    fam = "idem_clean" if idem else "resubmit"
+    for first in ("fatal", "ok", "exhaust"):
+        rmax = 2
+        cfg = dict(idem=idem, retryMax=rmax, leaders=[1], nbrokers=1, backoffMs=10)
+        gates = [{"name": "fin_at_bp", "point": "bp.recv", "flags": "fin", "retries": -1, "part": -1, "hwm": -1,
+                  "nth": 1 + (rmax if first == "exhaust" else 0)},
+                 {"name": "parked", "point": "pp.recv", "flags": "none", "retries": 0, "part": -1, "hwm": 1}]
+        if first == "exhaust" and idem:
+            continue     # (an exhausted idempotent batch is the territory of the recorded idempotent findings)
+        n1 = {"fatal": 1, "ok": 1, "exhaust": rmax + 1}[first]
+        pl = {}
+        for k in range(1, n1 + 1):
+            pl[str(k)] = {"part": {"0": "fatal" if first == "fatal" else "retry"}} if first != "ok" else {}
+        pl[str(n1 + 1)] = {"hold": True, "part": {"0": "retry"}}
+        # message 3 waits in the broker worker's buffer behind the held request: when that request is refused, 3 is bounced
+        # through the partition worker (also by the idempotent producer, which re-sends the refused batch 2 directly)
+        steps = submits([(1, 0)]) + [{"op": "wait_outcomes", "n": 1, "ms": 3000}] + submits([(2, 0)])
+        steps += [{"op": "wait_req", "n": n1 + 1, "ms": 2000}] + submits([(3, 0)]) + [{"op": "sleep", "ms": 30}]
+        steps += [{"op": "release", "n": n1 + 1}, {"op": "wait_gate", "name": "fin_at_bp"},
+                  {"op": "resubmit", "id": 4, "from": 1, "part": 0}, {"op": "wait_gate", "name": "parked"},
+                  {"op": "release_gate", "name": "parked"}, {"op": "sleep", "ms": 15}, {"op": "release_gate", "name": "fin_at_bp"},
+                  {"op": "wait_outcomes", "n": 4, "ms": 3000}]
+        steps += [{"op": "resubmit", "id": 5, "from": 2, "part": 0}, {"op": "wait_outcomes", "n": 5, "ms": 3000}]
+        steps += submits([(6, 0)]) + [{"op": "must_outcomes", "n": 6, "ms": 3000}, {"op": "close"}]
+        out.append(sc("resubmit-%s-%s" % (first, "idem" if idem else "plain"), fam, cfg, steps, pl, gates))
     return out
 
 
